@@ -1,4 +1,5 @@
 import Agd.Gen.TrC10
+import Agd.Model.Access
 /-!
 # C10: the access decision and its place in the request path, as translated from the source
 
@@ -9,6 +10,7 @@ import Agd.Gen.TrC10
 are opaque: their results are parameters, the calls appear in the returned trace.  All theorems are
 about the translated definitions themselves and hold for every value of every parameter.
 -/
+set_option linter.unusedSimpArgs false
 namespace Agd.Tie.TrC10
 open Agd.Gen.TrC10 Agd.TrPrelude
 
@@ -142,6 +144,186 @@ cache has no `enabled` switch: disabled settings were written as "no message"). 
 theorem cache_access_present_iff (x : Option S_filecachepb_Access) (o : Option S_access_DefaultProfile) :
     names (cacheAccess_toInternal x o).2 = (if x.isSome then ["NewDefaultProfile"] else []) := by
   cases x <;> simp [cacheAccess_toInternal, names]
+
+/-! ## `access.lowerRule` (translator round 3; the code after the `fix:` commit "do not lower-case the
+regular expressions of access rules") is the hand model `Agd.Access.lowerRule`, for every rule text
+
+The function is translated with `"ascii_strings"`: a string is its list of characters and byte offsets are
+character offsets (`TrPrelude.goStrLen`, `goLastIndexByte`, `goStrSlice?`, `goTrimSpace`, `goToLower`). -/
+
+open Agd.Access in
+private theorem lastIdx_split : ∀ l : List Char,
+    (splitLastSlash l = none → lastIdxL '/' l = -1) ∧
+    (∀ ab, splitLastSlash l = some ab → lastIdxL '/' l = (ab.1.length : Int) - 1 ∧ l = ab.1 ++ ab.2 ∧ 0 < ab.1.length)
+  | [] => by simp [splitLastSlash, lastIdxL]
+  | c :: cs => by
+    have ih := lastIdx_split cs
+    cases hs : splitLastSlash cs with
+    | some ab =>
+      obtain ⟨h1, h2, h3⟩ := ih.2 ab hs
+      refine ⟨by simp [splitLastSlash, hs], fun ab' h => ?_⟩
+      simp only [splitLastSlash, hs, Option.some.injEq] at h
+      subst h
+      have hge : 0 ≤ lastIdxL '/' cs := by omega
+      refine ⟨?_, by simp [← h2], by simp⟩
+      simp only [lastIdxL, hge, ↓reduceIte, List.length_cons, h1]
+      omega
+    | none =>
+      have h1 := ih.1 hs
+      have hlt : ¬ (0 ≤ lastIdxL '/' cs) := by omega
+      by_cases hc : c = '/'
+      · subst hc
+        refine ⟨by simp [splitLastSlash, hs], fun ab' h => ?_⟩
+        simp only [splitLastSlash, hs, beq_self_eq_true, ↓reduceIte, Option.some.injEq] at h
+        subst h
+        simp [lastIdxL, hlt]
+      · refine ⟨fun _ => by simp [lastIdxL, hlt, hc], fun ab' h => ?_⟩
+        simp [splitLastSlash, hs, hc] at h
+
+private theorem slash_char : Char.ofNat (47 : Int).toNat = '/' := by decide
+
+open Agd.Access in
+/-- The core of the equivalence on character lists: `pre` is the removed `@@` (or nothing). -/
+private theorem lower_core (pre rest : List Char) (hpre : pre = [] ∨ pre = ['@', '@']) :
+    let t := pre ++ '/' :: rest
+    let e := lastIdxL '/' t
+    (splitLastSlash rest = none → e = (pre.length : Int)) ∧
+    (∀ ab, splitLastSlash rest = some ab → e ≠ (pre.length : Int) ∧ 0 ≤ e ∧ e + 1 ≤ (t.length : Int) ∧
+      t.take (e + 1).toNat = pre ++ '/' :: ab.1 ∧ t.drop (e + 1).toNat = ab.2) := by
+  intro t e
+  obtain ⟨hn, hsome⟩ := lastIdx_split rest
+  constructor
+  · intro h
+    have h1 := hn h
+    rcases hpre with rfl | rfl <;> simp [e, t, lastIdxL, h1]
+  · intro ab h
+    obtain ⟨h1, h2, h3⟩ := hsome ab h
+    have hge : 0 ≤ lastIdxL '/' rest := by omega
+    have he : e = (pre.length : Int) + 1 + lastIdxL '/' rest := by
+      rcases hpre with rfl | rfl
+      · simp only [e, t, List.nil_append, lastIdxL, hge, ↓reduceIte, List.length_nil]; omega
+      · have h0 : (0 : Int) ≤ lastIdxL '/' rest + 1 := by omega
+        have h00 : (0 : Int) ≤ lastIdxL '/' rest + 1 + 1 := by omega
+        simp only [e, t, List.cons_append, List.nil_append, lastIdxL, hge, h0, h00, ↓reduceIte, List.length_cons, List.length_nil]
+        omega
+    have hn1 : (e + 1).toNat = pre.length + 1 + ab.1.length := by omega
+    refine ⟨by omega, by omega, ?_, ?_, ?_⟩
+    · simp only [t, List.length_append, List.length_cons]
+      rw [h2, List.length_append]; omega
+    · rw [hn1]
+      simp only [t]
+      rw [h2]
+      rw [show pre ++ '/' :: (ab.1 ++ ab.2) = (pre ++ '/' :: ab.1) ++ ab.2 by simp]
+      rw [List.take_left' (by simp; omega)]
+    · rw [hn1]
+      simp only [t]
+      rw [h2]
+      rw [show pre ++ '/' :: (ab.1 ++ ab.2) = (pre ++ '/' :: ab.1) ++ ab.2 by simp]
+      rw [List.drop_left' (by simp; omega)]
+
+open Agd.Access in
+private theorem strip_spec (t : List Char) :
+    (stripAllow t = (['@', '@'], t.drop 2) ∧ ['@', '@'].isPrefixOf t = true ∧ t = ['@', '@'] ++ t.drop 2) ∨
+    (stripAllow t = ([], t) ∧ ['@', '@'].isPrefixOf t = false) := by
+  unfold stripAllow
+  split
+  · left; simp
+  · rename_i hno
+    right
+    refine ⟨rfl, ?_⟩
+    cases h : ['@', '@'].isPrefixOf t with
+    | false => rfl
+    | true =>
+      obtain ⟨r, hr⟩ := List.isPrefixOf_iff_prefix.mp h
+      exact absurd hr.symm (by simpa using hno r)
+
+open Agd.Access in
+/-- The generated definition after the text has been trimmed, on character lists. -/
+private theorem lower_tail (pre pat : List Char) (hpre : pre = [] ∨ pre = ['@', '@']) :
+    (if (!(goHasPrefix (String.ofList pat) "/")) then some (goToLower (String.ofList (pre ++ pat)))
+      else
+        if (decide (goLastIndexByte (String.ofList (pre ++ pat)) (47 : Int) =
+            goStrLen (String.ofList (pre ++ pat)) - goStrLen (String.ofList pat))) then
+          some (goToLower (String.ofList (pre ++ pat)))
+        else
+          match (((goStrSlice? (String.ofList (pre ++ pat)) (0 : Int) (goLastIndexByte (String.ofList (pre ++ pat)) (47 : Int) + (1 : Int)))).bind fun v2 =>
+            ((((goStrSlice? (String.ofList (pre ++ pat)) (goLastIndexByte (String.ofList (pre ++ pat)) (47 : Int) + (1 : Int)) (goStrLen (String.ofList (pre ++ pat))))).bind fun v1 =>
+              some ((goToLower v1)))).bind fun v3 => some ((v2 ++ v3))) with
+          | none => none
+          | some x4 => some x4) =
+    some (String.ofList (match pat with
+      | '/' :: rest =>
+        match splitLastSlash rest with
+        | some ab => pre ++ '/' :: ab.1 ++ lowerL ab.2
+        | none => lowerL (pre ++ pat)
+      | _ => lowerL (pre ++ pat))) := by
+  have hlow : ∀ l, goToLower (String.ofList l) = String.ofList (lowerL l) := by intro l; simp [goToLower, lowerL]
+  match pat with
+  | [] => simp [goHasPrefix, hlow]
+  | c :: rest =>
+    by_cases hc : c = '/'
+    · subst hc
+      have hp : goHasPrefix (String.ofList ('/' :: rest)) "/" = true := by simp [goHasPrefix]
+      have hlen : goStrLen (String.ofList (pre ++ '/' :: rest)) - goStrLen (String.ofList ('/' :: rest)) = (pre.length : Int) := by
+        simp [goStrLen] <;> omega
+      have hidx : goLastIndexByte (String.ofList (pre ++ '/' :: rest)) (47 : Int) = lastIdxL '/' (pre ++ '/' :: rest) := by
+        simp [goLastIndexByte, slash_char]
+      obtain ⟨hnone, hsome⟩ := lower_core pre rest hpre
+      simp only [hp, Bool.not_true, Bool.false_eq_true, ↓reduceIte, hlen, hidx]
+      cases hs : splitLastSlash rest with
+      | none =>
+        simp only [hnone hs, decide_true, ↓reduceIte, hlow]
+      | some ab =>
+        obtain ⟨hne, h0, hle, htake, hdrop⟩ := hsome ab hs
+        have hle' : lastIdxL '/' (pre ++ '/' :: rest) + 1 ≤ (((pre ++ '/' :: rest).length : Nat) : Int) := hle
+        simp only [hne, decide_false, Bool.false_eq_true, ↓reduceIte]
+        have s1 : goStrSlice? (String.ofList (pre ++ '/' :: rest)) 0 (lastIdxL '/' (pre ++ '/' :: rest) + 1) =
+            some (String.ofList (pre ++ '/' :: ab.1)) := by
+          unfold goStrSlice?
+          rw [if_pos ⟨by omega, by omega, by simpa using hle'⟩]
+          simp [htake]
+        have s2 : goStrSlice? (String.ofList (pre ++ '/' :: rest)) (lastIdxL '/' (pre ++ '/' :: rest) + 1)
+            (goStrLen (String.ofList (pre ++ '/' :: rest))) = some (String.ofList ab.2) := by
+          generalize pre ++ '/' :: rest = L at *
+          unfold goStrSlice? goStrLen
+          rw [if_pos ⟨by omega, by simpa using hle', by simp⟩]
+          simp [hdrop]
+        rw [s1, s2]
+        simp [hlow, String.append_assoc]
+    · have hp : goHasPrefix (String.ofList (c :: rest)) "/" = false := by
+        have : ('/' == c) = false := by simpa using Ne.symm hc
+        simp [goHasPrefix, List.isPrefixOf, this]
+      simp only [hp, Bool.not_false, ↓reduceIte, hlow]
+      congr 2
+      split
+      · rename_i heq; simp at heq; exact absurd heq.1 hc
+      · rfl
+
+open Agd.Access in
+/-- **`access.lowerRule`, as translated from the source, is the hand model for every rule text** (so it also
+never panics: the two slice expressions are always within bounds).  Under the `"ascii_strings"` reading of
+strings as character lists this needs no hypothesis on the text. -/
+theorem lowerRule_tr (s : String) : Agd.Gen.TrC10.lowerRule s = some (Agd.Access.lowerRule s) := by
+  have hsp : goIsSpace = isSpaceC := rfl
+  have ht : goTrimSpace s = String.ofList (trimSpaceL s.toList) := by simp [goTrimSpace, trimSpaceL, hsp]
+  unfold Agd.Gen.TrC10.lowerRule Agd.Access.lowerRule lowerRuleL
+  simp only [ht]
+  generalize trimSpaceL s.toList = t
+  rcases strip_spec t with ⟨hst, hpfx, hsplit⟩ | ⟨hst, hpfx⟩
+  · have htp : goTrimPrefix (String.ofList t) "@@" = String.ofList (t.drop 2) := by
+      simp [goTrimPrefix, hpfx]
+    rw [htp, hst]
+    have := lower_tail ['@', '@'] (t.drop 2) (Or.inr rfl)
+    rw [← hsplit] at this
+    exact this
+  · have htp : goTrimPrefix (String.ofList t) "@@" = String.ofList t := by
+      simp [goTrimPrefix, hpfx]
+    rw [htp, hst]
+    exact lower_tail [] t (Or.inl rfl)
+
+/-- Non-vacuity: a regular-expression rule with options keeps its expression; a plain rule is lower-cased. -/
+example : lowerRule "  @@/Ab\\D+/$DNSTYPE=A " = some "@@/Ab\\D+/$dnstype=a" ∧ lowerRule "||Example.ORG^" = some "||example.org^" ∧
+    lowerRule "/" = some "/" := by decide
 
 end Agd.Tie.TrC10
 
